@@ -509,7 +509,7 @@ def object_specification_twins(rep, rule, u, dmod):
             kinds.add('class')
             if ps.facts.get(CLS) is not True:
                 probs.append('implementedBy of a failed __class__ read')
-        elif r.endswith('->empty'):
+        elif r.endswith(('->empty', '.empty')):
             kinds.add('empty')
             if ps.facts.get(CLS) is not False:
                 probs.append('returns the empty declaration although __class__ was '
